@@ -57,6 +57,11 @@ CONSTANTS
                                       \*   the selected platform's layers flattened into the one description the runtime executes) --
                                       \*   the layering is the same whichever view is asked: the answer for the platform the
                                       \*   description was replicated for is Result(that platform)
+    UserSplits,                       \* how the driver distributes the user-supplied definitions (ug, us, uso) over variable files: "auto"
+                                      \*   (one distribution per case) or a set of "one", "scope-gs", "scope-sg" (global / stage scope in
+                                      \*   two files, both orders), "name-ab", "name-ba" (the definitions of v in one file, those of w and x
+                                      \*   in another, both mentioning the same scopes and stage, both orders).  The user-supplied layer is
+                                      \*   the union of the files; they define disjoint (scope, name) pairs, so the result is the same
     Sibling,                          \* TRUE: the package has a second component `e` in stage 0 that defines nothing itself
     HistLen                           \* 0: documents only; n > 0: every document is followed by every history of n
                                       \*   read-only calls on ONE object (the last one a query), see "Histories" below
@@ -280,7 +285,7 @@ DefList == {[s |-> s, l |-> l, ref |-> (l \in RefAt(s) /\ l \notin empties[s]), 
 Case == [family |-> Family, kind |-> OptKind, litform |-> LitForm, obuiltin |-> OBuiltin, args |-> ArgsUse,
          used |-> {s \in Slots : Used(s)},
          defs |-> {d \in DefList : d.l \in defs[d.s]},
-         sibling |-> Sibling, replicated |-> Replicated, hist |-> hist,
+         sibling |-> Sibling, replicated |-> Replicated, splits |-> UserSplits, hist |-> hist,
          exp |-> [Q \in Platforms |-> Result(Q)]]
 (* documents (HistLen = 0) are emitted as they are; with histories only the complete ones are emitted *)
 EmitCase == (Emit /\ Len(hist) = HistLen) => PrintT(ToJson(Case))
